@@ -137,6 +137,7 @@ Inductive cmd :=
 | CCompose (w a b : string) | CComposeInto (a b d : string)
 | CFlag (w v : string) | CJson (w v : string)
 | CSnapF (w f : string) | CSnapInto (f w : string) | CComplexes (f pre : string)
+| CNextOf (w f : string) (pos : nat)     (* the pos-th step of an iteration over f.complexes() *)
 | CVR (w v : string) (close : list (nat * nat))
 | CGen (g : genkind) (v : string) (n : nat) (id : option name) (a : attrarg)
 | CLattice (w : string) (rows cols : nat)
@@ -412,6 +413,23 @@ Definition exec (w : world) (c : cmd) : world * outcome :=
           match res with
           | Ok _ => (set_var (set_heap w1 hp) x (OCx r'), OkV VUnit)
           | Raise e => (set_heap w1 hp, Err e)
+          end
+      | _ => (w, Err TypeError)
+      end
+  | CNextOf x f pos =>
+      (* FiltrationIterator.__next__: remember the index, move to the pos-th index, snap(), move
+         back -- the filtration is left as it was, the snapshot is a fresh complex *)
+      match vget (w_vars w) f with
+      | Some (OFilt ff) =>
+          match nth_error (f_indices ff) pos with
+          | None => (w, Err KeyError)            (* StopIteration: never scripted *)
+          | Some ind =>
+              let '(w1, u) := fresh_uid w in
+              let '(hp, r', res) := copy_new (w_heap w1) (f_view (f_setIndex ff ind)) u in
+              match res with
+              | Ok _ => (set_var (set_heap w1 hp) x (OCx r'), OkV VUnit)
+              | Raise e => (set_heap w1 hp, Err e)
+              end
           end
       | _ => (w, Err TypeError)
       end
